@@ -67,7 +67,7 @@ PickVal == /\ blk > 0 /\ ph = "idle" /\ ph' = "val"
                  /\ i < j \/ (i = j /\ u = GZero)
                  /\ Mine(7 * i + 13 * j + 3 * v[1] + 5 * u[2])
                  /\ L' = l0 /\ c' = Add(UnitR(l0, i, v), UnitR(l0, j, u))
-           /\ k' \in 0..5                        \* index of the symbolic table
+           /\ k' \in 0..3                        \* index of the symbolic table
            /\ UNCHANGED <<blk, g, tag>>
 (* the tag machine: kind is kept in c (a string here), gcx in k (0/1) *)
 StartTags == /\ blk = 1 /\ ph = "idle" /\ ph' = "tags"
